@@ -152,7 +152,7 @@ def norm_name(s):
         if t == 'false':
             t = '0'
         elif t == 'true':
-            t = '1'
+            t = '-1'        # clang's JSON gives the value of a bool template argument `true` as -1; keep both spellings equal
         res.append(t)
     if res and res[0] == '::':
         res = res[1:]
@@ -385,6 +385,22 @@ def parse_type(s):
     return TypeParser(s).parse()
 
 
+def split_top_commas(s):
+    out, d, cur = [], 0, ''
+    for ch in s:
+        if ch in '<(':
+            d += 1
+        elif ch in '>)':
+            d -= 1
+        if ch == ',' and d == 0:
+            out.append(cur)
+            cur = ''
+        else:
+            cur += ch
+    out.append(cur)
+    return out
+
+
 def sanitize(s):
     s = norm_name(s) if not re.match(r'^\w+$', s) else s
     s = s.replace('::', '__')
@@ -508,6 +524,27 @@ class Unit:
         n['_qn'] = qn
         return qn
 
+    def _node_in_pattern(self, n):
+        """n lies inside an uninstantiated template (class template pattern or function template pattern)"""
+        cur = n
+        while cur is not None:
+            par = cur.get('_parent')
+            k = cur.get('kind')
+            if k == 'CXXRecordDecl' and par is not None and par.get('kind') == 'ClassTemplateDecl':
+                return True
+            if k == 'ClassTemplatePartialSpecializationDecl':
+                return True
+            if k in FUNC_KINDS and par is not None and par.get('kind') == 'FunctionTemplateDecl':
+                fns = [x for x in par.get('inner', []) if x.get('kind') in FUNC_KINDS]
+                if fns and fns[0] is cur:
+                    return True
+            sem = cur.get('parentDeclContextId')
+            if sem and k in FUNC_KINDS and sem in self.ix.byid and self.ix.byid[sem] is not par:
+                cur = self.ix.byid[sem]
+                continue
+            cur = par
+        return False
+
     def _targs_text(self, spec):
         args = []
         for c in spec.get('inner', []):
@@ -550,13 +587,17 @@ class Unit:
 
     def _scan_node(self, n):
         k = n.get('kind')
-        if k == 'CXXRecordDecl' and n.get('definitionData', {}).get('isLambda'):
+        if k == 'CXXRecordDecl' and (n.get('definitionData', {}).get('isLambda') or (n.get('_parent') or {}).get('kind') == 'LambdaExpr'):
+            n.setdefault('definitionData', {})['isLambda'] = True
             loc = n.get('loc', {})
             if 'expansionLoc' in loc:
                 loc = loc['expansionLoc']
             n['_qn'] = norm_name('(lambda at %s:%s:%s)' % (n.get('_file'), n.get('_line'), loc.get('col')))
         if k in RECORD_KINDS and n.get('completeDefinition'):
-            self.records.setdefault(self.qualname(n), n)
+            qn = self.qualname(n)
+            old = self.records.get(qn)
+            if old is None or (self._node_in_pattern(old) and not self._node_in_pattern(n)):
+                self.records[qn] = n
         elif k == 'EnumDecl':
             self.enums.setdefault(self.qualname(n), n)
         elif k in ('TypedefDecl', 'TypeAliasDecl'):
@@ -590,6 +631,10 @@ class Unit:
             if name in STD_ALIASES:
                 v = STD_ALIASES[name]
                 return ('b', v) if isinstance(v, str) else v
+            m = re.match(r'^std::enable_if<(.*)>::type$', name)
+            if m:
+                args = split_top_commas(m.group(1))
+                return self.resolve(parse_type(args[1]) if len(args) > 1 else ('b', 'void'), ctx)
             m = re.match(r'^std::(__atomic_base|atomic)<(.*)>$', name)
             if m:
                 return ('atomic', self.resolve(parse_type(m.group(2)), ctx))
@@ -610,7 +655,7 @@ class Unit:
             if name in self.cfg.scalar_records:
                 return ('b', self.cfg.scalar_records[name])
             if not getattr(self, '_in_canon', False):
-                alt = self._canon_name(name)
+                alt = self._canon_name(name, ctx)
                 if alt != name:
                     self._in_canon = True
                     try:
@@ -633,7 +678,26 @@ class Unit:
                      'int8_t': 'signed char', 'int16_t': 'short', 'int32_t': 'int', 'int64_t': 'long', 'size_t': 'unsigned long',
                      'ssize_t': 'long', 'uintptr_t': 'unsigned long', 'intptr_t': 'long', 'ptrdiff_t': 'long'}
 
-    def _canon_name(self, name):
+    def _scopes_of(self, ctx):
+        out = []
+        cur = ctx
+        seen = 0
+        while cur is not None and seen < 200:
+            seen += 1
+            k = cur.get('kind')
+            if k in RECORD_KINDS or k == 'NamespaceDecl':
+                try:
+                    out.append(self.qualname(cur))
+                except Abort:
+                    pass
+            sem = cur.get('parentDeclContextId')
+            if sem and sem in self.ix.byid and k in FUNC_KINDS + ('VarDecl',):
+                cur = self.ix.byid[sem]
+            else:
+                cur = cur.get('_parent')
+        return out
+
+    def _canon_name(self, name, ctx=None):
         """second-chance spelling: typedef names inside template arguments replaced by their builtin spelling, and a
         name written inside namespace babylon tried with the namespace in front"""
         toks = tokenize(name)
@@ -651,7 +715,10 @@ class Unit:
             else:
                 out.append(t)
         alt = norm_name(' '.join(out))
-        for cand in (alt, 'babylon::' + alt):
+        cands = [alt, 'babylon::' + alt]
+        if ctx is not None:
+            cands += [sc + '::' + alt for sc in self._scopes_of(ctx) if sc]
+        for cand in cands:
             if cand in self.records or cand in self.typedefs or cand in self.enums or self._fuzzy_record(cand) is not None:
                 return cand
         return alt
@@ -815,7 +882,7 @@ class Unit:
                 if c.get('isBitfield'):
                     abort('bitfield', c)
                 if is_lambda and not c.get('name'):
-                    c['_lambda_field'] = 'cap%d' % nf
+                    c['_lambda_field'] = self._capture_name(rec, nf)
                 nf += 1
                 out.append(('field', self.field_cname(c), c))
             elif c.get('kind') == 'IndirectFieldDecl':
@@ -832,6 +899,22 @@ class Unit:
                     abort('alignas without constant value', n)
                 return int(v)
         return None
+
+    def _capture_name(self, rec, i):
+        """closure fields are named after what they capture (cap_<variable> / cap_this), so that specs do not depend on
+        the order in which the lambda body happens to mention its captures"""
+        lam = rec.get('_parent')
+        if lam is not None and lam.get('kind') == 'LambdaExpr':
+            inits = [c for c in lam.get('inner', []) if c.get('kind') not in ('CXXRecordDecl', 'CompoundStmt')]
+            if i < len(inits):
+                core = inits[i]
+                while core.get('kind') in ('ImplicitCastExpr', 'ParenExpr', 'UnaryOperator', 'CXXConstructExpr', 'MaterializeTemporaryExpr') and core.get('inner'):
+                    core = core['inner'][0]
+                if core.get('kind') == 'CXXThisExpr':
+                    return 'cap_this'
+                if core.get('kind') == 'DeclRefExpr' and core['referencedDecl'].get('name'):
+                    return 'cap_' + core['referencedDecl']['name']
+        return 'cap%d' % i
 
     def field_cname(self, f):
         return f.get('name') or f.get('_lambda_field') or ('__anon_L%s' % f.get('_line'))
@@ -1017,6 +1100,36 @@ class Unit:
             names.append(self.func_cname(d))
             self.want(d)
         return names
+
+    def add_lambda_root(self, within, file_suffix, line):
+        """operator() of the lambda written at file:line inside the (instantiated) function `within`"""
+        want = norm_name(within)
+        found = []
+
+        def walk(n, out):
+            if n.get('kind') == 'LambdaExpr' and (n.get('_file') or '').endswith(file_suffix) and n.get('_line') == line:
+                out.append(n)
+            for c in n.get('inner', []):
+                if isinstance(c, dict):
+                    walk(c, out)
+        for first, d in list(self.funcs_by_first.items()):
+            fd = self.ix.byid.get(first, d)
+            if self.qualname(fd) != want and self.qualname(d) != want:
+                continue
+            if self._is_template_pattern(d):
+                continue
+            walk(d, found)
+        if len(found) != 1:
+            raise Abort('lambda at %s:%s inside %s: %d matches (expected exactly one)' % (file_suffix, line, within, len(found)))
+        rec = [c for c in found[0]['inner'] if c.get('kind') == 'CXXRecordDecl'][0]
+        ops = [c for c in rec.get('inner', []) if c.get('kind') == 'CXXMethodDecl' and c.get('name') == 'operator()']
+        if len(ops) != 1:
+            raise Abort('lambda without a unique operator()')
+        self.first_of.setdefault(ops[0]['id'], ops[0]['id'])
+        self.funcs_by_first.setdefault(ops[0]['id'], ops[0])
+        name = self.func_cname(ops[0])
+        self.want(ops[0])
+        return [name]
 
     def _is_template_pattern(self, d):
         """a body that still belongs to an uninstantiated template"""
